@@ -295,7 +295,8 @@ def run(ck):
     model = vlib.ocaml_model()
     rng = random.Random(ck.seed * 7919 + 5)
     corpus = load_corpus()
-    cases = corpus + gen_cases(rng, n)
+    off = len(corpus)
+    cases = corpus + [(c, tag, (tw + off) if tw is not None else None) for c, tag, tw in gen_cases(rng, n)]
     for c, tag, _ in cases[len(corpus):len(corpus) + 3]:
         ck.sample(dict(tag=tag, p_a_b_c=[list(v) for v in c]))
     evaluate(ck, cases, impl, model)
